@@ -52,8 +52,23 @@ double ll2c_abs_fadd(double, double); double ll2c_abs_fsub(double, double); doub
 #define LL2C_FMUL(a,b) ((a) * (b))
 #define LL2C_FDIV(a,b) ((a) / (b))
 #endif
+#ifdef LL2C_FP_ABSTRACT
+#define LL2C_FADDF(a,b) ((float)ll2c_abs_fadd(a,b))
+#define LL2C_FSUBF(a,b) ((float)ll2c_abs_fsub(a,b))
+#define LL2C_FMULF(a,b) ((float)ll2c_abs_fmul(a,b))
+#define LL2C_FDIVF(a,b) ((float)ll2c_abs_fdiv(a,b))
+#else
 #define LL2C_FADDF(a,b) ((a) + (b))
 #define LL2C_FSUBF(a,b) ((a) - (b))
 #define LL2C_FMULF(a,b) ((a) * (b))
 #define LL2C_FDIVF(a,b) ((a) / (b))
+#endif
+/* llvm.memset: with -DLL2C_SKIP_BIG_ZEROING a zero-fill of more than 16 KB is skipped -- only for harnesses whose object
+   under construction is a zero-initialised static (the constructor of the 2.8 MB Search object value-initialises its
+   tables first thing); stated as a cut in the evidence of those checks */
+#ifdef LL2C_SKIP_BIG_ZEROING
+#define LL2C_MEMSET(p, v, n) do { if (!((n) > 16384 && (v) == 0)) memset(p, v, n); } while (0)
+#else
+#define LL2C_MEMSET(p, v, n) memset(p, v, n)
+#endif
 #endif
